@@ -25,6 +25,7 @@ def reasm(prop,extra_quick=(),extra_thorough=()):
     jobs.append(job("api-k3-mif5",".","VH_Reassembler",[prop+"/"],{"k":3,"maxInFlight":5},Q,bounds="k=3 operations then Close; maxInFlight=5 (nothing leaves by overflow: three events can sit in the buffer at Close)"))
     jobs.append(job("api-k4-mif5",".","VH_Reassembler",[prop+"/"],{"k":4,"maxInFlight":5},T,bounds="k=4 operations then Close; maxInFlight=5"))
     jobs.append(job("alphabet-k5-mif5",".","VH_Reassembler",[prop+"/"],{"k":5,"maxInFlight":5,"alphabet":2},Q,bounds="k=5 operations over a small alphabet (sequence = symbolic base + {0,1}; SYSCALL | PROCTITLE | EOE; Maintain) then Close; maxInFlight=5"))
+    jobs.append(job("alphabet-k4-mif5",".","VH_Reassembler",[prop+"/"],{"k":4,"maxInFlight":5,"alphabet":3},Q,bounds="k=4 operations over sequence = base + {0,1,2} x 3 record kinds; maxInFlight=5 (three events buffered at once)"))
     jobs.append(job("alphabet-k4-mif2",".","VH_Reassembler",[prop+"/"],{"k":4,"maxInFlight":2,"alphabet":3},Q,bounds="k=4 operations over sequence = base + {0,1,2} x 3 record kinds; maxInFlight=2"))
     jobs.append(job("alphabet-k6-mif2",".","VH_Reassembler",[prop+"/"],{"k":6,"maxInFlight":2,"alphabet":2},T,bounds="k=6 over base + {0,1} x 3 record kinds; maxInFlight=2"))
     return {"jobs":jobs,"assumptions":REASM_ASSUME,"outside":REASM_OUT}
@@ -136,7 +137,7 @@ for i,t in enumerate(TYPES):
     big = t in ("SYSCALL","EXECVE","USER_START","LOGIN")
     c05.append(job(f"body-{t}","auparse","VH_BodyTotal",["C05/"],{"maxlen":6 if big else 5,"type":i},QO,bounds=f"Parse({t}, header + body) for every ASCII body of 0..{6 if big else 5} symbolic bytes, then Data/Tags/ToMapStr twice"))
     c05.append(job(f"body7-{t}","auparse","VH_BodyTotal",["C05/"],{"maxlen":7 if t!="AVC" else 5,"type":i},T,bounds=f"Parse({t}, header + body), body 0..7 symbolic ASCII bytes (AVC: 0..5, its pattern has 14 byte classes)"))
-for tn,tname,ml in [(1,"typename",4),(2,"separator",5),(3,"unknown-number",5),(4,"type-and-separator",5)]:
+for tn,tname,ml in [(1,"typename",4),(2,"separator",5),(3,"unknown-number",5),(4,"type-and-separator",5),(5,"line-prefix",5)]:
     c05.append(job(f"line-{tname}","auparse","VH_LineTotal",["C05/"],{"maxlen":ml,"template":tn},Q,bounds=f"ParseLogLine on a full line whose {tname} part is every ASCII string of 0..{ml} symbolic bytes (type=<..> msg=audit(1.000:1): a=b)"))
 c05.append(job("header-window-3","auparse","VH_HeaderBad",["C05/"],{"mode":5,"window":3},Q,bounds="Parse/ParseLogLine on \"audit\" + 0..3 symbolic ASCII bytes + header remainder (delimiters swapped, doubled, missing)"))
 c05.append(job("header-overwrite-2","auparse","VH_HeaderBad",["C05/"],{"mode":6},Q,bounds="a well-formed line with any two header positions overwritten by symbolic ASCII bytes"))
@@ -178,7 +179,7 @@ for mode,name in enumerate(["seq-out-of-range","bad-byte-in-field","empty-field"
 for n in (3,5):
     c04.append(job(f"bad-window-{n}","auparse","VH_HeaderBad",["C04/"],{"mode":5,"window":n},Q if n==3 else T,bounds=f"\"audit\" + every ASCII string of 0..{n} symbolic bytes + \"1.000:5): cwd=(x)\" and + \": a=b\": swapped, doubled, missing and misplaced header delimiters"))
 c04.append(job("bad-overwrite-2","auparse","VH_HeaderBad",["C04/"],{"mode":6},Q,bounds="a well-formed header \"audit(12.345:67): a=(b)\" with any two positions overwritten by symbolic ASCII bytes"))
-for tn,tname,ml in [(1,"typename",4),(2,"separator",5),(3,"unknown-number",5),(4,"type-and-separator",5)]:
+for tn,tname,ml in [(1,"typename",4),(2,"separator",5),(3,"unknown-number",5),(4,"type-and-separator",5),(5,"line-prefix",5)]:
     c04.append(job(f"bad-line-{tname}","auparse","VH_LineTotal",["C04/"],{"maxlen":ml,"template":tn},Q,bounds=f"ParseLogLine on a full line whose {tname} part is every ASCII string of 0..{ml} symbolic bytes: error or message, no panic"))
 c04.append(job("bad-seq-11-digits","auparse","VH_HeaderBad",["C04/"],{"mode":0,"seqdigits":11},Q,bounds="sequence of 11 symbolic digits >= 2^32"))
 C["C04"]={"jobs":c04,"assumptions":PARSE_ASSUME+["expected numeric values are by construction (Horner over the same digit variables), not by parsing","time.Time.String is an uninterpreted injective rendering (the claim is about which instant reaches it)"],
@@ -214,6 +215,8 @@ c12.append(job("saddr-unix-full108","auparse","VH_Saddr",["C12/"],{"family":2,"l
 for i,k in enumerate(FC):
     c12.append(job(f"field-{k}-long","auparse","VH_EncodedField",["C12/"],{"case":i,"len":2,"long":200},Q,bounds=f"{k}: value of 200 bytes (concrete stem, last 2 bytes symbolic over 0x01..0xFF), quoted or hex"))
     c12.append(job(f"field-{k}-long1100","auparse","VH_EncodedField",["C12/"],{"case":i,"len":1,"long":1100},T,bounds=f"{k}: value of 1100 bytes (last byte symbolic)"))
+for ci,cn in [(8,"cwd-usercmd")]:
+    c12.append(job(f"field-{cn}-len2","auparse","VH_EncodedField",["C12/"],{"case":ci,"len":2},Q,bounds=f"{cn}: the key in another record type that carries it, value of 2 symbolic bytes over 0x01..0xFF, quoted or hex"))
 c12.append(job("execve-2-long","auparse","VH_Execve",["C12/"],{"argc":2,"len":2,"long":300},Q,bounds="EXECVE argc=2, second argument 300 bytes (last 2 symbolic)"))
 c12.append(job("saddr-unix-len5","auparse","VH_Saddr",["C12/"],{"family":2,"len":5},T,bounds="unix path of 5 symbolic bytes"))
 for n in (1,2,3,6):
